@@ -83,6 +83,34 @@ def main():
     # cargo serialises on the build directory lock; the per-binary time is measured from the moment rustc could start, so run sequentially
     for name in names:
         results.append(one(name))
+    # determinism clause, by execution: selected definitions are expanded twice in separate compiler processes and the texts compared
+    det = []
+    DET_BINS = ["c12_builtins", "c12_two_lexers_tables", "c12_rule_sets", "c12_ctx_shapes", "c12_ctx_big_class", "c12_many_rules", "c03_three_sets", "c10_kinds_all"]
+
+    def expand_once(name):
+        e = dict(env, RUSTC_BOOTSTRAP="1")
+        try:
+            p = subprocess.run(["cargo", "rustc", "--offline", "-q", "--bin", name, "--", "-Awarnings", "-Zunpretty=expanded"], cwd=root, capture_output=True, text=True, env=e, timeout=WATCHDOG)
+            return p.stdout if p.returncode == 0 else None
+        except subprocess.TimeoutExpired:
+            return None
+
+    for name in DET_BINS:
+        if name not in bins:
+            continue
+        a, b = expand_once(name), expand_once(name)
+        if a is None or b is None:
+            det.append({"definition": name, "status": "not expanded"})
+            continue
+        if a != b:
+            import difflib
+            diff = "\n".join(list(difflib.unified_diff(a.split("\n"), b.split("\n"), "expansion 1", "expansion 2", lineterm="", n=1))[:60])
+            path = C.write_replay(PROP, "expansion-deterministic " + name, "definition %s: two expansions of the same definition differ\n\n---- definition ----\n%s\n\n---- diff of the two expansions (head) ----\n%s\n" % (name, bins[name], diff))
+            lines.append("VIOLATION property=%s replay=%s obligation=expansion-deterministic:%s" % (PROP, path, name))
+            violations += 1
+            det.append({"definition": name, "status": "differs"})
+        else:
+            det.append({"definition": name, "status": "identical", "bytes": len(a)})
     samples = []
     known = C.load_known_findings()
     known_hit = []
@@ -112,13 +140,14 @@ def main():
     cov = {"evaluations": len(samples), "distinct_nontrivial": ok,
            "rule": "every corpus definition (layer C corpus + corpus/c12_defs.py) is expanded by the real macro of the snapshot and compiled by rustc, each as its own binary under a %d s watchdog; "
                    "non-trivial = expands and compiles" % WATCHDOG,
-           "samples": samples, "slow_definitions_over_30s": slow, "known_findings_reproduced": known_hit,
+           "samples": samples, "slow_definitions_over_30s": slow, "known_findings_reproduced": known_hit, "determinism_by_double_expansion": det,
            "proved_obligations": proved, "obligations": len(proved), "discharged": sum(1 for p in proved if p["status"] == "ok"),
            "checker_cmd": "cargo rustc --offline --bin <definition> (crate generated in scratch against the snapshot)" + ("; " + "; ".join(r.get("cmd", "") for r in vres) if vres else ""),
            "trusted_base": ["rustc/cargo of the repository toolchain", "the corpus samples the `programs` quantifier"] + (vsum["trusted_fragments"] if vsum else []),
            "functions_under_contract": vsum["functions_under_contract"] if vsum else [],
            "exhaustive": False}
-    assumptions = ["bounded stand-in: a finite corpus of definitions, each expanded once; 'expanding twice gives the same code' is a two-run property that no contract expresses and is NOT checked",
+    assumptions = ["bounded stand-in: a finite corpus of definitions, each expanded and compiled once; 'expanding twice gives the same code' is a two-run property that no contract expresses - it is sampled by expanding eight "
+                   "definitions twice in separate compiler processes and comparing the texts (execution, not proof)",
                    "termination of update_backtracks for every DFA is the proved part when the Verus unit update_backtracks is listed under proved_obligations"] + ["UNDECIDED: " + u for u in undecided]
     rc = C.EXIT_VIOLATION if violations else (C.EXIT_UNDECIDED if undecided else C.EXIT_OK)
     C.write_evidence(PROP, "model_checking" if False else "other", dict(cov, explanation="bounded stand-in by execution of the real macro on a corpus under a watchdog, plus a Verus termination proof of the backtrack analysis when listed"), assumptions, time.time() - t0, violations)
